@@ -30,7 +30,7 @@ RULE = ('inputs: every truncation and seeded single-character corruptions (hosti
 ASSUMPTIONS = ['documented behaviour: non-str arguments raise TypeError (not generated); memory limits out of scope',
                'step budget: token deliveries + error-handler calls <= 6*len(text)+60 per parse']
 BUDGET_S = {'quick': 55, 'thorough': 1500}
-REQUIRED_HITS = ['parse', 'lexer_iter', 'message_position_checked', 'step_hook', 'blowup_probe', 'shape', 'identifier_escape']
+REQUIRED_HITS = ['parse', 'lexer_iter', 'message_position_checked', 'step_hook', 'blowup_probe', 'shape', 'identifier_escape', 'foreign_syntax']
 FLOOR = {'quick': 20000, 'thorough': 150000}
 
 CHAR_ALPHABET = list('ab1.0xe"\'\\/*(){}[];,:?=+-<>!&|~^% \n\r\t_$') + ['\u2028', '\ufeff', '\xe9', '\u0660', '\u0301', '\u203f']
@@ -251,6 +251,24 @@ def run(ctx):
                                  'x\u2028%s', '"s\\\n" + %s'):
                         check(ctx, steps, ctxt % (name % esc), 'identifier_escape', ('parse', 'lexer'))
                         ctx.hit('identifier_escape')
+
+        # syntax of other languages and tools that a lenient front end might try to skip (hashbang line, HTML comment
+        # delimiters, decorators, template quotes ...): as the whole input, with each kind of line end after it, in front of
+        # and behind a program, and all the escape spellings of the shared identifier family, string escapes included
+        if ctx.shard == 3 % ctx.nshards:
+            from vk.mon.c06 import FOREIGN
+            for f in FOREIGN + ['#!/usr/bin/env node --flag', '#!\t', '#!#!', '-->\t', '<!---->']:
+                for text in [f, ' ' + f, f + ' '] + [t for lt in ('\n', '\r', '\r\n', '\u2028', '\u2029') for t in (
+                        f + lt, f + lt + 'x = 1', 'x = 1' + lt + f, f + lt + f, lt + f)]:
+                    check(ctx, steps, text, 'foreign_syntax', ('parse', 'lexer'))
+                    ctx.hit('foreign_syntax')
+        if ctx.shard == 4 % ctx.nshards:
+            for k, text in enumerate(work.identifier_escape_texts()):
+                if k % 3 == ctx.seed % 3:
+                    check(ctx, steps, text, 'identifier_escape_shared', ('parse', 'lexer'))
+        if ctx.shard == 5 % ctx.nshards:
+            for k, text in enumerate(work.string_escape_texts()):
+                check(ctx, steps, text, 'string_escape', ('parse', 'lexer'))
 
         # pathological shapes (shard 0 .. 3 share them)
         shapes = [
